@@ -214,6 +214,12 @@ def apply_impl(s, d, op):
         before = enc(impl.plain(dict(arg)))
         darg = copy.deepcopy(impl.plain(dict(arg)))
         if o == "update":
+            # update(m, **kw) is update(m) followed by update(**kw), for the items and for the side tables alike
+            kws = {"zz_kw": 1, **({next(iter(darg)): "kw"} if darg and isinstance(next(iter(darg)), str) and next(iter(darg)).isidentifier() else {})}
+            sa = copy.deepcopy(s); sa.update(_mk_arg(op["a"]), **copy.deepcopy(kws))
+            sb = copy.deepcopy(s); sb.update(_mk_arg(op["a"])); sb.update(**copy.deepcopy(kws))
+            if _sd_json(sa) != _sd_json(sb):
+                notes.append("update(m, **kw) differs from update(m) followed by update(**kw) (items or side tables)")
             pos, kw = _styled(arg, op.get("style", "map"))
             s.update(*pos, **kw); d.update(copy.deepcopy(darg))
         elif o == "ior":
